@@ -58,7 +58,10 @@ func (fact *ProposalFact) DecodeJSON(b []byte, enc encoder.Encoder) error {
 		fact.proposer = i
 	}
 
-	hs := make([][2]util.Hash, len(u.Operations))
+	var hs [][2]util.Hash // NOTE null and [] are decoded to what they were encoded from
+	if u.Operations != nil {
+		hs = make([][2]util.Hash, len(u.Operations))
+	}
 
 	for i := range u.Operations {
 		hs[i][0] = u.Operations[i][0].Hash()
